@@ -180,6 +180,13 @@ def gen_seq(ctx, n, kinds=(0, 1, 2, 3)):
             first = 0 if kind == 2 else 7
             cases.append([kind, 1, first, 3, 0, 2, 0] + tail + [9, 0, 1, first + 1, 2, 0, 2, 0, 9, 0])
             cases.append([kind, 1, first, 1, first + 1, 3, 0, 2, 0, 2, 0] + tail + [2, 0, 2, 0, 9, 0])
+            # a reservation held across growth of the ring (4 -> 8 -> 16) and a drain by try_get
+            for extra in (2, 3, 4, 5, 9, 17):
+                c = [kind, 1, first, 3, 0]
+                for j in range(extra):
+                    c += [1, first + 1 + j]
+                c += [9, 0] + [2, 0] * (extra + 1) + tail + [9, 0, 1, first + 40, 2, 0, 2, 0, 9, 0]
+                cases.append(c)
     return cases
 
 
